@@ -118,3 +118,19 @@ Definition digest_component (v : bytes) : option bytes :=
       end
   | None => None
   end.
+
+(* the packet value as a sequence of well-formed top-level elements: (Type, whole element bytes) *)
+Fixpoint strict_split (fuel : nat) (w : bytes) : option (list (N * bytes)) :=
+  match w with
+  | [] => Some []
+  | _ =>
+      match fuel with
+      | O => None
+      | S f =>
+          match next_element w with
+          | Some (t, e, r) => option_map (cons (t, e)) (strict_split f r)
+          | None => None
+          end
+      end
+  end.
+Definition well_formed_value (v : bytes) : Prop := exists sel, strict_split (S (length v)) v = Some sel.
